@@ -53,6 +53,9 @@ for name in names:
         old_meta = json.load(open(os.path.join(dst, "meta.json")))
         for k in ("summary", "needs_to_manifest", "files", "origin"):
             meta[k] = old_meta.get(k, meta[k])
+        for k in ("history", "round"):
+            if k in old_meta:
+                meta[k] = old_meta[k]
     json.dump(meta, open(os.path.join(dst, "meta.json"), "w"), indent=1)
     if ok_without and ok_with and tests and "358 passed" in tests.group(1):
         if os.path.abspath(d) != os.path.abspath(dst):
